@@ -100,11 +100,30 @@ func (w *World) opNext() *Op {
 	n := uint32(1 + w.R.Intn(3))
 	branch := uint32(w.R.Intn(2))
 	op := &Op{Kind: "next", Issuing: true, Mutates: true, Name: fmt.Sprintf("next %v/%d branch=%d n=%d", s, a.Num, branch, n)}
+	// sometimes a smaller request on the same branch precedes it INSIDE the same
+	// database transaction.  Memory is only updated at commit, so both start from
+	// the same index; what the first returns is not judged here, only that
+	// memory and disk agree afterwards (C08) and the bookkeeping stays right.
+	first := uint32(0)
+	if w.R.Intn(6) == 0 {
+		first = 1 + uint32(w.R.Intn(int(n)))
+		op.Name += fmt.Sprintf(" (preceded in the same transaction by a request for %d)", first)
+	}
 	locked := !w.Unlocked()
 	op.Run = func(ns walletdb.ReadWriteBucket) error {
 		sm := w.Scoped(s)
 		var got []waddrmgr.ManagedAddress
 		var err error
+		if first > 0 {
+			if branch == 1 {
+				_, err = sm.NextInternalAddresses(ns, a.Num, first)
+			} else {
+				_, err = sm.NextExternalAddresses(ns, a.Num, first)
+			}
+			if err != nil {
+				return err
+			}
+		}
 		if branch == 1 {
 			got, err = sm.NextInternalAddresses(ns, a.Num, n)
 		} else {
